@@ -62,7 +62,7 @@ func (w *wconn) MasterHead() ton.BlockIDExt {
 }
 func (w *wconn) SetMasterHead(h ton.BlockIDExt)       { w.inner.SetMasterHead(h) }
 func (w *wconn) IsOK() bool                           { return w.alive.Load() }
-func (w *wconn) Client() *liteclient.Client           { return nil }
+func (w *wconn) Client() *liteclient.Client           { return w.inner.Client() }
 func (w *wconn) Run(ctx context.Context, detect bool) {}
 func (w *wconn) IsArchiveNode() bool                  { return false }
 func (w *wconn) AverageRoundTrip() time.Duration      { return time.Duration(w.rtt.Load()) }
@@ -1432,4 +1432,210 @@ func maxOf(xs []int) int {
 		}
 	}
 	return m
+}
+
+// ---- the exported entry points that wait, under best-connection switches ----
+
+// c13.entry: (strategy nconns entry tgt (pre-event ...) (event ...)) -> (status head conn)
+// entry 0 BestMasterchainClient, 1 BestClientByAccountID(archiveRequired=false), 2 BestClientByBlockID,
+// 3 WaitMasterchainSeqno(tgt).  A fresh pool of real connection objects under the real Run loop
+// (connection 0 is the choice, all heads 0, nobody alive); the pre-events happen before the call,
+// the events while the call waits; every event is fully handled (update buffer drained) before the next.
+func execC13Entry(in sx.V) sx.V {
+	strat, nconns, entry := in.List[0].I(), in.List[1].I(), in.List[2].I()
+	tgt := uint32(in.List[3].U64())
+	p, conns, wraps := newWalkPool(strat, nconns)
+	ctx, stop := context.WithCancel(context.Background())
+	defer stop()
+	go p.Run(ctx)
+	settle := func() {
+		for k := 0; k < 4000 && p.VerifUpdateBufferLen() > 0; k++ {
+			time.Sleep(250 * time.Microsecond)
+		}
+		time.Sleep(2 * time.Millisecond)
+	}
+	apply := func(e sx.V) {
+		switch e.List[0].Atom {
+		case "sethead":
+			if c := e.List[1].I(); c < len(conns) {
+				conns[c].SetMasterHead(uint32(e.List[2].U64()))
+			}
+			settle()
+		case "conn":
+			if c := e.List[1].I(); c < len(wraps) {
+				wraps[c].alive.Store(e.List[2].Bool)
+				wraps[c].rtt.Store(e.List[3].Int.Int64())
+			}
+		case "tick":
+			p.VerifUpdateBest()
+		}
+	}
+	for _, e := range in.List[4].List {
+		apply(e)
+	}
+	clientID := map[*liteclient.Client]int{}
+	for i, c := range conns {
+		clientID[c.Conn().Client()] = i
+	}
+	wctx, wcancel := context.WithCancel(context.Background())
+	defer wcancel()
+	var (
+		cli  *liteclient.Client
+		head ton.BlockIDExt
+		err  error
+	)
+	d := goStep(func() {
+		switch entry {
+		case 0:
+			cli, head, err = p.BestMasterchainClient(wctx)
+		case 1:
+			cli, head, err = p.BestClientByAccountID(wctx, ton.AccountID{}, false)
+		case 2:
+			cli, err = p.BestClientByBlockID(wctx, ton.BlockID{})
+		default:
+			err = p.WaitMasterchainSeqno(wctx, tgt, waitLong)
+		}
+	})
+	// the caller is inside: registered, or back already
+	for k := 0; k < 4000 && p.VerifWaitListLen() != 1 && !finished(d, 0); k++ {
+		time.Sleep(250 * time.Microsecond)
+	}
+	for _, e := range in.List[5].List {
+		apply(e)
+		finished(d, time.Millisecond)
+	}
+	status := ""
+	if !finished(d, 20*time.Millisecond) {
+		// nothing it waits for has arrived: the caller's context ends (entry 3: its timeout is
+		// stood in for by the cancellation, reported as 'timeout by the model's convention)
+		wcancel()
+		if !finished(d, 5*time.Second) {
+			return sx.L(sx.A("hang"), sx.A("none"), sx.A("none"))
+		}
+		status = "cancel"
+		if entry == 3 {
+			status = "timeout"
+		}
+	}
+	switch {
+	case status != "":
+		return sx.L(sx.A(status), sx.A("none"), sx.A("none"))
+	case err == pool.ErrNoConnections:
+		return sx.L(sx.A("noconn"), sx.A("none"), sx.A("none"))
+	case err != nil:
+		return sx.L(sx.A("err"), sx.A("none"), sx.A("none"))
+	}
+	hv, cv := sx.A("none"), sx.A("none")
+	if entry == 0 || entry == 1 {
+		hv = sx.N(uint64(head.Seqno))
+	}
+	if entry != 3 {
+		if id, ok := clientID[cli]; ok {
+			cv = sx.Nat(id)
+		} else {
+			cv = sx.A("unknown")
+		}
+	}
+	return sx.L(sx.A("nil"), hv, cv)
+}
+
+func evSethead(c, h int) sx.V { return sx.L(sx.A("sethead"), sx.Nat(c), sx.Nat(h)) }
+func evTick() sx.V            { return sx.L(sx.A("tick")) }
+
+func entrySx(strat, nconns, entry, tgt int, pre, evs []sx.V) sx.V {
+	return sx.L(sx.Nat(strat), sx.Nat(nconns), sx.Nat(entry), sx.Nat(tgt), sx.L(pre...), sx.L(evs...))
+}
+
+func genC13Entries(c *Ctx, f *c13Fails) {
+	r := c.R
+	emit := func(in sx.V, class string) {
+		res := c.Emit("c13.entry", in, class)
+		// oracle (the property itself): a head handed to the caller is at or beyond what the call
+		// waits for (BestMasterchainClient and its wrappers wait for the first head: seqno >= 1)
+		entry := in.List[2].I()
+		if res.List[0].Atom == "nil" && (entry == 0 || entry == 1) {
+			if res.List[1].K != sx.KN || res.List[1].U64() < 1 {
+				f.fail("c13.entry", in, "best-client-stale-head", fmt.Sprintf("entry point %d returned success with head %s: the best connection never reported such a head (it waits for seqno >= 1)", entry, res.List[1].String()))
+			}
+		}
+		if res.List[0].Atom == "hang" {
+			f.fail("c13.entry", in, "entry-hang", "the call did not return after its context was cancelled")
+		}
+	}
+	for entry := 0; entry < 4; entry++ {
+		for strat := 0; strat < 2; strat++ {
+			// the choice has no head yet; another connection reports, the old choice dies, the refresh
+			// switches, the new best connection reports the next block
+			emit(entrySx(strat, 2, entry, 8, nil, []sx.V{evSethead(1, 7), opConn(0, false, 1), opConn(1, true, 1), evTick(), evSethead(1, 8)}), fmt.Sprintf("entry|e%d|switch-on-death", entry))
+			// ... falls behind instead of dying
+			emit(entrySx(strat, 2, entry, 5, []sx.V{opConn(0, true, 1), opConn(1, true, 2)}, []sx.V{evSethead(1, 3), evTick(), evSethead(1, 5), evSethead(0, 1)}), fmt.Sprintf("entry|e%d|switch-on-lag", entry))
+			// no switch: the choice reports its first head
+			emit(entrySx(strat, 2, entry, 1, nil, []sx.V{evSethead(1, 4), evSethead(0, 1)}), fmt.Sprintf("entry|e%d|first-head", entry))
+			// initialised pool: no wait
+			emit(entrySx(strat, 2, entry, 3, []sx.V{evSethead(0, 3)}, nil), fmt.Sprintf("entry|e%d|initialised", entry))
+			// nothing arrives
+			emit(entrySx(strat, 2, entry, 9, nil, []sx.V{evSethead(1, 4), evTick()}), fmt.Sprintf("entry|e%d|nothing", entry))
+		}
+	}
+	emit(entrySx(0, 0, 0, 1, nil, nil), "entry|e0|empty-pool")
+	// the choice is uninitialised (or dies / falls behind) and the best connection switches while the call waits
+	ns := c.Scale(40, 500)
+	for i := 0; i < ns; i++ {
+		nconns := 2 + r.Intn(2)
+		entry := r.Intn(4)
+		other := 1 + r.Intn(nconns-1)
+		h := 1 + r.Intn(6)
+		var pre, evs []sx.V
+		if r.Chance(40) {
+			pre = append(pre, opConn(0, true, int64(1+r.Intn(3))), opConn(other, true, int64(1+r.Intn(3))))
+		}
+		evs = append(evs, evSethead(other, h))
+		if r.Chance(50) {
+			evs = append(evs, opConn(0, false, 1))
+		}
+		evs = append(evs, opConn(other, true, 1))
+		if r.Chance(30) {
+			evs = append(evs, evSethead(other, h+2))
+		}
+		evs = append(evs, evTick())
+		if r.Chance(80) {
+			evs = append(evs, evSethead(other, h+2+r.Intn(3)))
+		}
+		if r.Chance(40) {
+			evs = append(evs, evSethead(0, 1+r.Intn(3)))
+		}
+		emit(entrySx(r.Intn(2), nconns, entry, 1+r.Intn(h+3), pre, evs), fmt.Sprintf("entry|e%d|switch|c%d", entry, nconns))
+	}
+	n := c.Scale(60, 900)
+	for i := 0; i < n; i++ {
+		nconns := 1 + r.Intn(3)
+		entry := r.Intn(4)
+		heads := make([]int, nconns)
+		mk := func(k int) []sx.V {
+			var evs []sx.V
+			for j := 0; j < k; j++ {
+				switch x := r.Intn(10); {
+				case x < 5:
+					cn := r.Intn(nconns)
+					heads[cn] += 1 + r.Intn(3)
+					evs = append(evs, evSethead(cn, heads[cn]))
+				case x < 8:
+					evs = append(evs, opConn(r.Intn(nconns), r.Chance(65), int64(1+r.Intn(3))))
+					if r.Chance(60) {
+						evs = append(evs, evTick())
+					}
+				default:
+					evs = append(evs, evTick())
+				}
+			}
+			return evs
+		}
+		var pre []sx.V
+		if r.Chance(50) {
+			pre = mk(r.Intn(3))
+			// keep the choice uninitialised in most cases: that is where the calls wait
+		}
+		evs := mk(1 + r.Intn(6))
+		emit(entrySx(r.Intn(2), nconns, entry, 1+r.Intn(6), pre, evs), fmt.Sprintf("entry|e%d|random|c%d", entry, nconns))
+	}
 }
